@@ -271,11 +271,12 @@ static inline Plan gen_lifecycle(Rng rng, int nops_max, bool rich_before_cleanup
             else if (c < 80 && is_ctr(q.kind)) { Op &o = G.emit(OP_ENC, s); o.size = G.r.chance(1, 5) ? 0 : 1 + G.r.below(40); o.a = G.r.bytes(o.size); }
             else if (c < 86 && is_ctr(q.kind)) { Op &o = G.emit(OP_SETCTR, s); o.size = kind_bs(q.kind); o.a = G.r.bytes(o.size); }
             else if (c < 92 && is_ctr(q.kind)) { Op &o = G.emit(OP_SETTWEAK, s); o.size = 8; o.a = G.r.bytes(8); }
-            else if (is_par(q.kind)) { Op &o = G.emit(G.r.chance(1, 2) || q.kind == PM ? OP_PENC : OP_PDEC, s); o.size = kind_bs(q.kind) * G.r.below(5); if (G.r.chance(1, 3)) { static const unsigned ps[] = {64, 128, 256, 192}; o.size = ps[G.r.below(4)]; } o.a = G.r.bytes(o.size); if (q.kind == PM) o.b = G.r.bytes(o.size); }
+            else if (is_par(q.kind)) { Op &o = G.emit(G.r.chance(1, 2) || q.kind == PM ? OP_PENC : OP_PDEC, s); o.size = kind_bs(q.kind) * G.r.below(5); if (G.r.chance(1, 3)) { static const unsigned ps[] = {64, 128, 256, 192}; o.size = ps[G.r.below(4)]; } o.a = G.r.bytes(o.size); if (q.kind == PM) { o.b = G.r.bytes(o.size); if (G.r.chance(1, 3)) o.flags |= F_NULLB; } }
             else G.cleanup(s);
             continue;
         }
         if (rich_before_cleanup && c >= 88 && !q.keyed) { G.valid_key(s, false); continue; }
+        if (rich_before_cleanup && is_ctr(q.kind) && q.keyed && G.r.chance(1, 120)) { G.enc(s, 65536 + G.r.below(8192)); continue; }     // a one-shot request of more than 64 KiB (an implementation may keep a big buffer for those)
         if (G.r.chance(1, 25)) { G.invalid_call(s); continue; }      // a rejected call somewhere in the life of the object
         G.free_step(s, true, 300, false);
     }
@@ -319,6 +320,16 @@ static inline Plan gen_stream(Rng rng) {
     unsigned ksize = is_mantis(kind) ? 16 : (G.r.chance(4, 5) ? bs * G.r.range(1, tweaked ? 2 : 3) : G.r.range(bs, bs * (tweaked ? 2 : 3)));
     Bytes key = G.r.bytes(ksize); int rounds = G.r.range(5, 8);
     for (int i = 0; i < nobj; ++i) { int s = G.add_slot(kind); G.init(s, G.r.below(3)); }
+    // a third of the histories: the object has had an earlier session under another key, in the OTHER keying mode
+    // (tweaked with a non-zero tweak before an untweaked key, and the reverse), with data sent; the stream under the new
+    // key must not remember any of it
+    if (G.r.chance(1, 3)) for (int s = 0; s < nobj; ++s) {
+        bool ptw = kind != MCTR && !tweaked;
+        if (kind == MCTR) G.setkey(s, 16, false, G.r.range(5, 8), 1); else G.setkey(s, bs * G.r.range(1, ptw ? 2 : 3), ptw);
+        if (ptw || kind == MCTR) G.settweak(s, 2 + G.r.below(6));
+        if (G.r.chance(2, 3)) G.setctr(s);
+        if (G.r.chance(3, 4)) G.enc(s, G.data_len(G.g[s], 200));
+    }
     for (int s = 0; s < nobj; ++s) { G.setkey(s, ksize, tweaked, rounds, 1); G.p.ops.back().a = key; }
     int packets = 1 + G.r.below(3);
     for (int pk = 0; pk < packets; ++pk) {
